@@ -1,7 +1,10 @@
 (* C20 -- A satisfiable byte-range request returns exactly the requested slice.
    Only final statements here, each closed by [exact] and followed by Print Assumptions.
    Model: Model/Range.v (Range.parse, prevent_denial_of_service, positions/get_range_content on a BytesIO,
-   ContentRange.compose, ComposedResponse.prepare_ranges/prepare_range/multipart_byteranges, Multipart.encode). *)
+   ContentRange.compose, ComposedResponse.prepare_ranges/prepare_range/multipart_byteranges, Multipart.encode).
+   The model is indexed by two variants (vi: byte positions through int() / digits only; vu: range unit ignored / validated),
+   see Model/Range.v.  Names without _v (range_parse_with, prepare_ranges_with, prepare_ranges) are the model at the variants
+   the T1 probes read from the working tree. *)
 From Coq Require Import Sorting.Sorted.
 From Httoop Require Import Model.ElemLex Model.Range Proofs.ElemLex Proofs.Range.
 Local Open Scope N_scope.
@@ -20,12 +23,23 @@ Example C20_single_nonvacuous :
   pre_ok (mkpre true true true true true false false false true) = true /\ 3 < 5 /\ 5 < len (X "666f6f62617262617a").
 Proof. vm_compute. repeat split; reflexivity. Qed.
 
-(* the same for every field value that parses to that one range, and for every DoS filter *)
-Theorem C20_single_general : forall (accept : list rspec -> bool) (c : pre) (v u : bytes) (first last : N) (d ct bd : bytes),
+(* the same under either variant of the two repairs, as long as the unit test lets 'bytes' through *)
+Theorem C20_single_any_variant : forall (vi vu : variant) (c : pre) (d ct bd : bytes) (first last : N),
+  unit_ok vu BYTES_UNIT = true ->
+  pre_ok c = true -> first < last -> last < len d ->
+  prepare_ranges_v vi vu dos_ok c (Some (render_range (render_spec first last))) d ct bd =
+    Partial (Some (X "627974657320" ++ dec first ++ [DASH] ++ dec last ++ [SLASH] ++ dec (len d))) None
+            (last + 1 - first) (firstn (nat_of (last + 1 - first)) (skipn (nat_of first) d)).
+Proof. exact single_range_v. Qed.
+Print Assumptions C20_single_any_variant.
+
+(* the same for every field value that parses to that one range with a unit that is served (always, as found; 'bytes' in any
+   case once the unit is looked at), for every DoS filter and both variants of either repair *)
+Theorem C20_single_general : forall (vi vu : variant) (accept : list rspec -> bool) (c : pre) (v u : bytes) (first last : N) (d ct bd : bytes),
   range_conditions c true d = true ->
-  range_parse_with accept v = Some (u, [(Some first, Some last)]) ->
+  range_parse_v vi vu accept v = Some (u, [(Some first, Some last)]) -> unit_served vu u = true ->
   first < last -> last < len d ->
-  prepare_ranges_with accept c (Some v) d ct bd =
+  prepare_ranges_v vi vu accept c (Some v) d ct bd =
     Partial (Some (X "627974657320" ++ dec first ++ [DASH] ++ dec last ++ [SLASH] ++ dec (len d))) None
             (last + 1 - first) (firstn (nat_of (last + 1 - first)) (skipn (nat_of first) d)).
 Proof. exact single_range_general. Qed.
@@ -46,23 +60,27 @@ Print Assumptions C20_slice_len.
 Theorem C20_numeral_roundtrip : forall n : N, pynat (dec n) = Some n.
 Proof. exact pynat_dec. Qed.
 Print Assumptions C20_numeral_roundtrip.
+(* ... and passes the digits-only test of the repaired Range.parse *)
+Theorem C20_position_roundtrip : forall (vi : variant) (n : N), pos_parse vi (dec n) = Some n.
+Proof. exact pos_parse_dec. Qed.
+Print Assumptions C20_position_roundtrip.
 
 (* clause 2: several ranges.  For every DoS filter [accept]: an accepted set of two or more ranges is answered with a
    multipart/byteranges body made of one part per range, in the order of the parsed list, each part carrying its
    Content-Range and exactly its slice *)
-Theorem C20_multi : forall (accept : list rspec -> bool) (c : pre) (v u : bytes) (rs : list rspec) (d ct bd : bytes),
+Theorem C20_multi : forall (vi vu : variant) (accept : list rspec -> bool) (c : pre) (v u : bytes) (rs : list rspec) (d ct bd : bytes),
   range_conditions c true d = true ->
-  range_parse_with accept v = Some (u, rs) -> (2 <= List.length rs)%nat ->
-  prepare_ranges_with accept c (Some v) d ct bd =
+  range_parse_v vi vu accept v = Some (u, rs) -> unit_served vu u = true -> (2 <= List.length rs)%nat ->
+  prepare_ranges_v vi vu accept c (Some v) d ct bd =
     let body := mp_encode bd (map (fun r => (part_headers ct (content_range r (len d)), slice d r)) rs) in
     Partial None (Some (multipart_ctype bd)) (len body) body.
 Proof. exact multi_range. Qed.
 Print Assumptions C20_multi.
 
 (* ... the parsed list is exactly the set of requested specs, each once, sorted by first position ... *)
-Theorem C20_multi_parts : forall (accept : list rspec -> bool) (v u : bytes) (rs : list rspec),
-  range_parse_with accept v = Some (u, rs) ->
-  exists specs, range_specs v = (u, Some specs) /\ accept rs = true /\
+Theorem C20_multi_parts : forall (vi vu : variant) (accept : list rspec -> bool) (v u : bytes) (rs : list rspec),
+  range_parse_v vi vu accept v = Some (u, rs) ->
+  exists specs, range_specs_v vi vu v = (u, Some specs) /\ accept rs = true /\
     (forall r, In r rs <-> In r specs) /\ NoDup rs /\ StronglySorted key_le rs.
 Proof. exact range_parse_with_spec. Qed.
 Print Assumptions C20_multi_parts.
@@ -73,7 +91,7 @@ Theorem C20_multi_ascending : forall rs : list rspec,
   StronglySorted before rs.
 Proof. exact dos_ok_ascending. Qed.
 Print Assumptions C20_multi_ascending.
-Theorem C20_specs_wellformed : forall v u specs, range_specs v = (u, Some specs) -> Forall spec_wf specs.
+Theorem C20_specs_wellformed : forall vi vu v u specs, range_specs_v vi vu v = (u, Some specs) -> Forall spec_wf specs.
 Proof. exact range_specs_wf. Qed.
 Print Assumptions C20_specs_wellformed.
 
@@ -85,6 +103,13 @@ Theorem C20_multi_from_text : forall (accept : list rspec -> bool) (l : list (N 
   range_parse_with accept (render_range (render_specs l)) = Some (BYTES_UNIT, rs).
 Proof. exact range_parse_render_list. Qed.
 Print Assumptions C20_multi_from_text.
+Theorem C20_multi_from_text_any_variant : forall (vi vu : variant) (accept : list rspec -> bool) (l : list (N * N)),
+  unit_ok vu BYTES_UNIT = true -> l <> [] -> Forall (fun p => fst p < snd p) l ->
+  let rs := sort_r (dedupe [] (map (fun p => (Some (fst p), Some (snd p))) l)) in
+  accept rs = true ->
+  range_parse_v vi vu accept (render_range (render_specs l)) = Some (BYTES_UNIT, rs).
+Proof. exact range_parse_render_list_v. Qed.
+Print Assumptions C20_multi_from_text_any_variant.
 Example C20_multi_nonvacuous :
   prepare_ranges (mkpre true true true true true false false false true)
     (Some (render_range (render_specs [(6, 8); (0, 2)]))) (X "666f6f62617262617a") (X "742f70") (X "4242") =
@@ -92,28 +117,56 @@ Example C20_multi_nonvacuous :
     (X "2d2d42420d0a436f6e74656e742d52616e67653a20627974657320302d322f390d0a436f6e74656e742d547970653a20742f700d0a0d0a666f6f0d0a2d2d42420d0a436f6e74656e742d52616e67653a20627974657320362d382f390d0a436f6e74656e742d547970653a20742f700d0a0d0a62617a0d0a2d2d42422d2d0d0a").
 Proof. vm_compute. reflexivity. Qed.
 
-(* clause 3: a refused Range field never gives 206 (for every filter and every precondition vector) ... *)
-Theorem C20_refused_never_206 : forall (accept : list rspec -> bool) (c : pre) (v d ct bd : bytes) (before : N),
-  range_parse_with accept v = None -> before <> 206 ->
-  status_of (prepare_ranges_with accept c (Some v) d ct bd) before <> 206.
+(* clause 3: a refused Range field never gives 206 (for every filter, every precondition vector, both variants) ... *)
+Theorem C20_refused_never_206 : forall (vi vu : variant) (accept : list rspec -> bool) (c : pre) (v d ct bd : bytes) (before : N),
+  range_parse_v vi vu accept v = None -> before <> 206 ->
+  status_of (prepare_ranges_v vi vu accept c (Some v) d ct bd) before <> 206.
 Proof. exact refused_never_206. Qed.
 Print Assumptions C20_refused_never_206.
 
-(* ... 206 arises only when every precondition holds and the field parsed ... *)
-Theorem C20_partial_only_under_preconditions : forall (accept : list rspec -> bool) (c : pre) (range : option bytes) (d ct bd : bytes) (before : N),
-  before <> 206 -> status_of (prepare_ranges_with accept c range d ct bd) before = 206 ->
-  pre_ok c = true /\ isnil d = false /\ exists v u rs, range = Some v /\ range_parse_with accept v = Some (u, rs).
+(* ... 206 arises only when every precondition holds, the field parsed and its unit is one that is served ... *)
+Theorem C20_partial_only_under_preconditions : forall (vi vu : variant) (accept : list rspec -> bool) (c : pre) (range : option bytes) (d ct bd : bytes) (before : N),
+  before <> 206 -> status_of (prepare_ranges_v vi vu accept c range d ct bd) before = 206 ->
+  pre_ok c = true /\ isnil d = false /\
+  exists v u rs, range = Some v /\ range_parse_v vi vu accept v = Some (u, rs) /\ unit_served vu u = true.
 Proof. exact partial_only_under_preconditions. Qed.
 Print Assumptions C20_partial_only_under_preconditions.
 
-(* ... and every field outside the RFC 7233 grammar (white space tolerated) is refused.
-   FULL STATEMENT (false of the pinned tree, two known findings):
+(* ... and every field outside the RFC 7233 grammar (white space tolerated) is refused:
      forall v, strict_ok v = false -> status <> 206.
-   Proved: the statement away from the two finding classes ([no_lax]: the unit is a token and the range set
-   contains neither '+' nor '_'); refuted: one witness per finding. *)
-Theorem C20_invalid_never_206_partial : forall (accept : list rspec -> bool) (c : pre) (v d ct bd : bytes) (before : N),
-  no_lax v = true -> strict_ok v = false -> before <> 206 ->
+   FULL STATEMENT, proved of the repaired code (byte positions must be digits, the unit must be a token): *)
+Theorem C20_invalid_never_206 : forall (accept : list rspec -> bool) (c : pre) (v d ct bd : bytes) (before : N),
+  strict_ok v = false -> before <> 206 ->
+  status_of (prepare_ranges_v Repaired Repaired accept c (Some v) d ct bd) before <> 206.
+Proof. exact strict_never_206_repaired. Qed.
+Print Assumptions C20_invalid_never_206.
+(* the same about the working tree (whose model the correspondence run validates) once both T1 probes report the repaired code *)
+Theorem C20_invalid_never_206_working_tree : forall (accept : list rspec -> bool) (c : pre) (v d ct bd : bytes) (before : N),
+  RANGE_INT_VARIANT = Repaired -> RANGE_UNIT_VARIANT = Repaired ->
+  strict_ok v = false -> before <> 206 ->
   status_of (prepare_ranges_with accept c (Some v) d ct bd) before <> 206.
+Proof. exact strict_never_206_current. Qed.
+Print Assumptions C20_invalid_never_206_working_tree.
+(* what gets through the repaired Range.parse is inside the grammar; the admitted unit octets are token octets *)
+Theorem C20_repaired_parse_is_strict : forall v, strict_ok v = false -> snd (range_specs_v Repaired Repaired v) = None.
+Proof. exact strict_refused_repaired. Qed.
+Print Assumptions C20_repaired_parse_is_strict.
+Theorem C20_unit_class_is_token_class : RANGE_UNIT_VARIANT = Repaired -> forall c, inmask RANGE_UNIT_CHARS c = tchar c.
+Proof. exact unit_chars_are_tchars. Qed.
+Print Assumptions C20_unit_class_is_token_class.
+(* RFC 7233 3.1: a unit that is not 'bytes' (in any case) leaves the response alone once the unit is looked at *)
+Theorem C20_foreign_unit_ignored : forall (vi : variant) (accept : list rspec -> bool) (c : pre) (v u : bytes) (rs : list rspec) (d ct bd : bytes),
+  range_parse_v vi Repaired accept v = Some (u, rs) -> lower u <> BYTES_UNIT ->
+  prepare_ranges_v vi Repaired accept c (Some v) d ct bd = Unchanged.
+Proof. exact foreign_unit_unchanged. Qed.
+Print Assumptions C20_foreign_unit_ignored.
+
+(* AS FOUND the full statement was false (two findings, repaired since).  Proved of every variant: the statement away from the
+   two finding classes ([no_lax]: the unit is a token and the range set contains neither '+' nor '_'); refuted of the as-found
+   model: one witness per finding; the same witnesses are refused / not served by the repaired model. *)
+Theorem C20_invalid_never_206_partial : forall (vi vu : variant) (accept : list rspec -> bool) (c : pre) (v d ct bd : bytes) (before : N),
+  no_lax v = true -> strict_ok v = false -> before <> 206 ->
+  status_of (prepare_ranges_v vi vu accept c (Some v) d ct bd) before <> 206.
 Proof. exact strict_never_206. Qed.
 Print Assumptions C20_invalid_never_206_partial.
 Example C20_invalid_partial_nonvacuous :
@@ -122,10 +175,20 @@ Example C20_invalid_partial_nonvacuous :
   strict_ok (X "62797465733d20312d32202c2d35") = true.
 Proof. vm_compute. repeat split; reflexivity. Qed.
 Theorem C20_invalid_never_206_refuted_lax_integer :
-  exists c v d ct bd, strict_ok v = false /\ pre_ok c = true /\ status_of (prepare_ranges c (Some v) d ct bd) 200 = 206.
+  exists c v d ct bd, strict_ok v = false /\ pre_ok c = true /\ status_of (prepare_ranges_v AsFound AsFound dos_ok c (Some v) d ct bd) 200 = 206.
 Proof. exact strict_never_206_refuted_sign. Qed.
 Print Assumptions C20_invalid_never_206_refuted_lax_integer.
 Theorem C20_invalid_never_206_refuted_unit :
-  exists c v d ct bd, strict_ok v = false /\ pre_ok c = true /\ status_of (prepare_ranges c (Some v) d ct bd) 200 = 206.
+  exists c v d ct bd, strict_ok v = false /\ pre_ok c = true /\ status_of (prepare_ranges_v AsFound AsFound dos_ok c (Some v) d ct bd) 200 = 206.
 Proof. exact strict_never_206_refuted_unit. Qed.
 Print Assumptions C20_invalid_never_206_refuted_unit.
+(* bytes=+1-+2 with digits-only positions: 416; and on a tree that validates the unit: '=1-2' 416, 'bits=1-2' untouched, 'Bytes=1-2' 206 *)
+Theorem C20_repaired_witnesses :
+  let c := mkpre true true true true true false false false true in
+  status_of (prepare_ranges_v Repaired AsFound dos_ok c (Some (X "62797465733d2b312d2b32")) (X "666f6f62617262617a") [] []) 200 = 416 /\
+  (RANGE_UNIT_VARIANT = Repaired ->
+   status_of (prepare_ranges c (Some (X "3d312d32")) (X "666f6f62617262617a") [] []) 200 = 416 /\
+   prepare_ranges c (Some (X "626974733d312d32")) (X "666f6f62617262617a") [] [] = Unchanged /\
+   status_of (prepare_ranges c (Some (X "42797465733d312d32")) (X "666f6f62617262617a") [] []) 200 = 206).
+Proof. exact repaired_refuses_witnesses. Qed.
+Print Assumptions C20_repaired_witnesses.
